@@ -580,8 +580,11 @@ def target_contents(rng, tier):
     bigarb = bytearray(rng.randrange(256) for _ in range(2000)) * 90
     for e in range(72):
         bigarb[78848 + 32 * e] = rng.choice([0x00, 0xFF])
-    t = {"absent": None, "empty": b"", "cassette": tape, "disk": disk, "rawbin": raw, "arbitrary": rng.choice(arb),
-         rng.choice(["bigraw", "bigarbitrary"]): None}
+    # a genuine disk image one of whose files holds the bytes of a tape recording (a .cas kept on a disk)
+    inner = impl_tape([("INNER", "BIN", 2, 0, 0x0E00, 0x0E00, bytes(rng.randrange(256) for _ in range(rng.choice([1, 200, 600]))))])
+    disktape = impl_disk([("TAPEIMG", "BIN", 2, 0, 0x0E00, 0x0E00, inner)])
+    t = {"absent": None, "empty": b"", "cassette": tape, "disk": rng.choice([disk, disk, disktape]), "rawbin": raw,
+         "arbitrary": rng.choice(arb), rng.choice(["bigraw", "bigarbitrary"]): None}
     t = {k: (bigraw if k == "bigraw" else bytes(bigarb) if k == "bigarbitrary" else v) for k, v in t.items()}
     if tier == "thorough":
         t["arbitrary2"] = arb[2]
